@@ -455,7 +455,7 @@ func runC03(ctx Ctx) int {
 			}
 		}
 	}
-	deadline := devx.Deadline(map[string]time.Duration{"quick": 5 * time.Minute, "thorough": 30 * time.Minute}[run.Tier])
+	deadline := devx.Deadline(map[string]time.Duration{"quick": 5 * time.Minute, "thorough": 15 * time.Minute}[run.Tier])
 	// real-clock cases run alone (they un-pin the process-wide clock)
 	var pinned, real []c03Case
 	for _, c := range cases {
